@@ -1,18 +1,63 @@
 import MosnVerif.Lemmas.TlsSelect
+import MosnVerif.Lemmas.TlsMatch
 import MosnVerif.Lemmas.TlsUpdate
 import MosnVerif.Model.TlsTrust
 import MosnVerif.Model.TlsConnect
 import MosnVerif.Lemmas.TlsSds
+import MosnVerif.Lemmas.TlsShare
 import MosnVerif.Lemmas.TlsAccept
 /-!
 # C13 — TLS policy is enforced as configured (property theorems only)
 
 The objects are the model of pkg/mtls in `Model/TlsSelect.lean`; `walkStep/walkFinish` (GetConfigForClient),
 `getClientAuth`, `clientVerify`, `connDecision`, `requiresClientCert`, `alpnSupported` and the ClientAuthType constants
-are regenerated from the Go source on every check (`Gen/TlsPolicy.lean`).
+are regenerated from the Go source on every check (`Gen/TlsPolicy.lean`).  The selection code itself — `buildMatch`,
+`MatchedServerName`, `MatchedALPN`, the ALPN filter of `tlsConfigTemplate` and the whole of `GetConfigForClient` — is
+regenerated statement by statement (`Gen/TlsMatch.lean`); the `gen_*_eq_model` theorems below prove the model's functions
+equal to the regenerated ones, so every theorem about `select` / `matchedServerName` / `buildMatch` is a theorem about
+the regenerated code.
 -/
 namespace MosnVerif.Props.C13
-open MosnVerif.Model.TlsSelect MosnVerif.Gen.TlsPolicy
+open MosnVerif MosnVerif.Model.TlsSelect MosnVerif.Gen.TlsPolicy
+open MosnVerif.Lemmas.TlsMatch (provs NamespacesApart certKeys)
+open MosnVerif.Model.TlsMatchBase (X509 Prov)
+
+/-! ### the model IS the regenerated selection code -/
+
+/-- **gen_buildMatch_eq_model**: the regenerated `buildMatch` (over the context's certificate, the NextProtos the
+regenerated ALPN filter of `tlsConfigTemplate` keeps, and the server_name) stores exactly the model's key set. -/
+theorem gen_buildMatch_eq_model (c : Ctx) :
+    Gen.TlsMatch.buildMatch [some ⟨c.cn, c.sans⟩] (Gen.TlsMatch.alpnFilter c.alpnCfg) c.serverName = buildMatch c :=
+  Lemmas.TlsMatch.gen_buildMatch_eq c
+
+/-- the regenerated `buildMatch` for ANY certificate list (certificates that do not parse are skipped), NextProtos and
+server_name: which strings enter `matches`, lower-cased, never the empty string for CN / SAN / server_name. -/
+theorem gen_buildMatch_keys (certs : List (Option X509)) (protos : List Name) (sn : Name) :
+    Gen.TlsMatch.buildMatch certs protos sn =
+      certs.flatMap certKeys ++ protos.map lower ++ (if sn.length > 0 then [lower sn] else []) :=
+  Lemmas.TlsMatch.gen_buildMatch_spec certs protos sn
+
+/-- the regenerated ALPN filter of `tlsConfigTemplate` is the model's `parseALPN`. -/
+theorem gen_alpnFilter_eq_model (cfg : Name) : Gen.TlsMatch.alpnFilter cfg = parseALPN cfg :=
+  Lemmas.TlsMatch.gen_alpnFilter_eq cfg
+
+/-- **gen_matchedServerName_eq_model**: the regenerated `MatchedServerName` (lower-casing, the trailing-dot loop, the
+exact lookup, the label-by-label wildcard walk) is the model's, for every key set, every string, and however much fuel
+beyond their termination measures the two loops are given. -/
+theorem gen_matchedServerName_eq_model (m : List Name) (sn : Name) (fuel : Nat) :
+    Gen.TlsMatch.matchedServerName m sn fuel = matchedServerName m sn :=
+  Lemmas.TlsMatch.gen_matchedServerName_eq m sn fuel
+
+theorem gen_matchedALPN_eq_model (m : List Name) (protos : List Name) :
+    Gen.TlsMatch.matchedALPN m protos = matchedALPN m protos :=
+  Lemmas.TlsMatch.gen_matchedALPN_eq m protos
+
+/-- **gen_select_eq_model**: the regenerated `GetConfigForClient` (whole function: the provider loop with its `Ready()`
+test, default / server-name / ALPN bookkeeping, the early return, and the tail), run on the providers of the contexts
+`ps` (position, readiness, regenerated key set), is the model's `select`. -/
+theorem gen_select_eq_model (ps : List Ctx) (sni : Name) (protos : List Name) (fuel : Nat) :
+    Gen.TlsMatch.getConfigForClient (provs ps 0) sni protos fuel = select ps sni protos :=
+  Lemmas.TlsMatch.gen_select_eq ps sni protos fuel
 
 /-- **select_precedence**: for EVERY provider list and EVERY ClientHello (SNI, ALPN list), `GetConfigForClient` returns
 the first ready provider whose match set matches the SNI, else the first ready provider whose match set contains a
@@ -24,6 +69,23 @@ theorem select_precedence (ps : List Ctx) (sni : Name) (protos : List Name) :
   unfold select
   rw [walk_eq, pick_eq_ofOpt]
   simp [orElse']
+
+/-- `select_precedence` spelled out over the regenerated functions only: the regenerated `GetConfigForClient` returns the
+first ready context whose regenerated key set (regenerated `buildMatch` over the regenerated ALPN filter) the regenerated
+`MatchedServerName` accepts for the SNI, else the first ready one the regenerated `MatchedALPN` accepts, else the first
+ready context, else the error. -/
+theorem gen_select_precedence (ps : List Ctx) (sni : Name) (protos : List Name) (fuel : Nat) :
+    Gen.TlsMatch.getConfigForClient (provs ps 0) sni protos fuel =
+      ofOpt (orElse'
+        (ps.findIdx? (fun c => c.ready && Gen.TlsMatch.matchedServerName
+          (Gen.TlsMatch.buildMatch [some ⟨c.cn, c.sans⟩] (Gen.TlsMatch.alpnFilter c.alpnCfg) c.serverName) sni fuel))
+        (orElse'
+          (ps.findIdx? (fun c => c.ready && Gen.TlsMatch.matchedALPN
+            (Gen.TlsMatch.buildMatch [some ⟨c.cn, c.sans⟩] (Gen.TlsMatch.alpnFilter c.alpnCfg) c.serverName) protos))
+          (ps.findIdx? (fun c => c.ready)))) := by
+  simp only [gen_select_eq_model, select_precedence, gen_buildMatch_eq_model, gen_matchedServerName_eq_model,
+    gen_matchedALPN_eq_model]
+  rfl
 
 /-- `findIdx?` is "the first": index `i` is returned iff the predicate holds at `i` and at no smaller index (core lemma,
 restated so that `select_precedence` can be read without the library). -/
@@ -74,31 +136,83 @@ theorem matched_alpn (m : List Name) (protos : List Name) :
     matchedALPN m protos = true ↔ ∃ q ∈ protos, lower q ∈ m :=
   matchedALPN_iff m protos
 
-/-- **select_statement_partial**: the statement's rule (names and ALPN are separate: first ready context whose
-certificate names / server_name match the SNI exactly or by wildcard, else first ready whose ALPN list intersects the
-client's, else first ready, else error) is what `GetConfigForClient` computes, for every context list (certificate DNS
-names non-empty) and every ClientHello in which (h1) the SNI is not an ALPN token of a ready context and (h2) no client
-ALPN entry equals a name of a ready context.
-FULL STATEMENT (not provable, see the witnesses below and KNOWN_FINDINGS): the same without h1 and h2 — MOSN keeps names
-and ALPN tokens in ONE set, so an SNI such as `h2`/`sofa` matches a context through its ALPN list and a client ALPN entry
-such as `a.com` matches a context through its certificate name. -/
-theorem select_statement_partial (ps : List Ctx) (sni : Name) (protos : List Name)
-    (hsan : ∀ c ∈ ps, [] ∉ c.sans)
-    (h1 : ∀ c ∈ ps, c.ready = true → normSni sni ∉ c.alpn.map lower)
-    (h2 : ∀ c ∈ ps, c.ready = true → ∀ q ∈ protos, lower q ∉ c.names.map lower) :
-    select ps sni protos = ofOpt (specSelect ps sni protos) := by
-  rw [select_precedence]
+/-- **select_statement**: the FULL statement of the property for the regenerated `GetConfigForClient`: for EVERY ordered
+list of contexts (any certificate names incl. empty and wildcard ones, any alpn / server_name strings, any readiness)
+and EVERY ClientHello, the context that answers is the first ready context whose certificate names or server_name
+match the SNI exactly or by wildcard label, else the first ready context whose ALPN list intersects the client's, else
+the first ready context (else ErrorNoCertConfigure) — `specSelect`, written with separate name and ALPN namespaces —
+under the single hypothesis `NamespacesApart`: "no configured name equals an ALPN token and vice versa" as far as this
+ClientHello can tell (the SNI is not an ALPN token of a ready context, no offered ALPN entry is a name of a ready
+context).  Without it the statement FAILS (MOSN keeps names and ALPN tokens in ONE set): recorded finding, key `xns`,
+machine-checked witnesses `select_statement_exception_*` below. -/
+theorem select_statement (ps : List Ctx) (sni : Name) (protos : List Name) (fuel : Nat)
+    (hns : NamespacesApart ps sni protos) :
+    Gen.TlsMatch.getConfigForClient (provs ps 0) sni protos fuel = ofOpt (specSelect ps sni protos) := by
+  rw [gen_select_eq_model, select_precedence]
   unfold specSelect
   rw [findIdx?_congr ps (fun c => c.ready && c.sniMatch sni) (fun c => c.ready && nameRule c sni),
     findIdx?_congr ps (fun c => c.ready && c.alpnMatch protos) (fun c => c.ready && alpnRule c protos)]
   · intro c hc
     cases hr : c.ready
     · rfl
-    · simp only [Bool.true_and]; exact alpnMatch_eq_alpnRule c protos (h2 c hc hr)
+    · simp only [Bool.true_and]; exact alpnMatch_eq_alpnRule c protos (hns c hc hr).2
   · intro c hc
     cases hr : c.ready
     · rfl
-    · simp only [Bool.true_and]; exact sniMatch_eq_nameRule c sni (hsan c hc) (h1 c hc hr)
+    · simp only [Bool.true_and]; exact sniMatch_eq_nameRule c sni (hns c hc hr).1
+
+/-- the exception, machine-checked (1): an SNI equal to an ALPN token selects the context offering that token although
+no name matches and the client offers no ALPN — the statement selects the first ready context. -/
+theorem select_statement_exception_sni_is_token :
+    ∃ ps sni protos, ¬ NamespacesApart ps sni protos ∧
+      Gen.TlsMatch.getConfigForClient (provs ps 0) sni protos 0 ≠ ofOpt (specSelect ps sni protos) :=
+  ⟨[⟨true, "c.net".toList, [], [], []⟩, ⟨true, "a.com".toList, ["*.a.com".toList], "h2".toList, []⟩], "h2".toList, [],
+    by decide, by decide⟩
+
+/-- the exception, machine-checked (2): a client ALPN entry equal to a certificate name counts as an ALPN intersection. -/
+theorem select_statement_exception_proto_is_name :
+    ∃ ps sni protos, ¬ NamespacesApart ps sni protos ∧
+      Gen.TlsMatch.getConfigForClient (provs ps 0) sni protos 0 ≠ ofOpt (specSelect ps sni protos) :=
+  ⟨[⟨true, "c.net".toList, [], [], []⟩, ⟨true, "a.com".toList, ["*.a.com".toList], "h2".toList, []⟩], "zzz".toList,
+    ["a.com".toList], by decide, by decide⟩
+
+/-- **wildcard_labels** (MOSN's wildcard semantics, over the regenerated walk, for ALL suffixes and ALL host strings):
+a key `*.suffix` matches the host h iff h (lower-cased, trailing dots removed) is `l₁.l₂.….lₖ.suffix` with k ≥ 1
+dot-free labels — ONE OR MORE labels (RFC 6125 allows exactly one; MOSN walks every label boundary). -/
+theorem wildcard_labels (suf h : Name) (fuel : Nat) :
+    Gen.TlsMatch.matchedServerName ['*' :: '.' :: suf] h fuel = true ↔
+      ∃ ls : List Name, ls ≠ [] ∧ (∀ l ∈ ls, '.' ∉ l) ∧ normSni h = joinDot (ls ++ [suf]) := by
+  rw [gen_matchedServerName_eq_model, matchedServerName_iff]
+  simp only [List.mem_singleton, List.cons.injEq, true_and]
+  constructor
+  · rintro (he | ⟨pre, suf', e, hs⟩)
+    · exact ⟨[['*']], by simp, by simp, by rw [he]; rfl⟩
+    · subst hs
+      refine ⟨splitOn '.' pre, splitOn_ne_nil _ _, Lemmas.TlsMatch.splitOn_no_sep '.' pre, ?_⟩
+      rw [Lemmas.TlsMatch.joinDot_append_singleton _ _ (splitOn_ne_nil _ _), joinDot_splitOn, e]
+  · rintro ⟨ls, hne, _, e⟩
+    rw [Lemmas.TlsMatch.joinDot_append_singleton _ _ hne] at e
+    exact Or.inr ⟨joinDot ls, suf, e, rfl⟩
+
+/-- never a partial label, never the bare suffix: if the host is `pre ++ suffix` where `pre` does not end in a dot
+(`pre` empty = the bare suffix; `xa.com` against `*.a.com`), the key `*.suffix` does not match it. -/
+theorem wildcard_never_inside_a_label (suf pre h : Name) (fuel : Nat) (e : normSni h = pre ++ suf)
+    (hp : ¬ ∃ p, pre = p ++ ['.']) :
+    Gen.TlsMatch.matchedServerName ['*' :: '.' :: suf] h fuel = false := by
+  rw [Bool.eq_false_iff, Ne, gen_matchedServerName_eq_model, matchedServerName_iff]
+  simp only [List.mem_singleton, List.cons.injEq, true_and]
+  rintro (he | ⟨pre', suf', e', hs⟩)
+  · rw [e] at he
+    have : pre ++ suf = ['*', '.'] ++ suf := he
+    exact hp ⟨['*'], List.append_cancel_right this⟩
+  · subst hs
+    rw [e] at e'
+    have : pre ++ suf' = (pre' ++ ['.']) ++ suf' := by simpa using e'
+    exact hp ⟨pre', List.append_cancel_right this⟩
+
+theorem wildcard_never_bare_suffix (suf h : Name) (fuel : Nat) (e : normSni h = suf) :
+    Gen.TlsMatch.matchedServerName ['*' :: '.' :: suf] h fuel = false :=
+  wildcard_never_inside_a_label suf [] h fuel (by simpa using e) (by rintro ⟨p, hp⟩; simp at hp)
 
 /-- **client_auth_table**: verify_client / require_client_cert ↦ tls.ClientAuthType, all four combinations, with the
 numeric values of crypto/tls. -/
@@ -149,8 +263,8 @@ theorem no_plaintext_without_inspector (peekFailed : Bool) (b : Nat) :
 
 /-- **spec_holds_on_model**: the executable predicates the driver evaluates on implementation outputs hold of the
 model's outputs, for every input (`auth`, `trust`, `cv`; `trustc` for a ready provider; `insp` for a listener that is
-either TCP with a ready context or in inspector mode — the complement is `passthrough_partial`); for
-`sel`/`hs`/`msn`/`mal` this is `select_statement_partial` with its two hypotheses. -/
+either TCP with a ready context or in inspector mode — see `plaintext_only_when_inspector_allows` and its exceptions); for
+`sel`/`hs`/`msn`/`mal` this is `select_statement` under `NamespacesApart`. -/
 theorem spec_holds_on_model :
     (∀ req ver, getClientAuth req ver = specClientAuth req ver) ∧
     (∀ req ver p, serverAccepts (getClientAuth req ver) p = specServerAccepts req ver p) ∧
@@ -167,13 +281,51 @@ theorem spec_holds_on_model :
     cases tcp <;> cases cfgd <;> cases en <;> cases ins <;> cases pf <;> by_cases h : b = 22 <;>
       simp_all [connDecision, specConn, servesPlain, specPlain]
 
-/-- **passthrough_partial**: what `Conn` does outside "TCP connection, some context ready": the connection is returned
-untouched. FULL STATEMENT (fails, see the witnesses and KNOWN_FINDINGS): a listener with TLS contexts never serves
-plaintext without inspector mode — MOSN does, while no context is ready (sds secret pending) or when the transport is
-not TCP (unix socket listener); likewise an upstream connection stays in plaintext while its provider is not ready. -/
-theorem passthrough_partial (tcp en ins pf : Bool) (b : Nat) (h : tcp = false ∨ en = false) :
+/-- **plaintext_only_when_inspector_allows**: the FULL statement "plaintext is served on a TLS listener only when inspector
+mode allows it", for every connection of a listener with TLS contexts, every inspector flag, every outcome of the peek
+and every first byte — under the one hypothesis `ReadyTcp` (the connection is TCP and some context is ready): plaintext
+is served iff inspector mode is on, the first byte could be read and is not 0x16; and the driver's predicate `specConn`
+holds of the regenerated decision. Outside `ReadyTcp` lie the two recorded findings (no context ready: sds secret
+pending; transport not TCP), machine-checked in `plaintext_exception_pending` / `plaintext_exception_not_tcp`. -/
+theorem plaintext_only_when_inspector_allows (tcp en ins pf : Bool) (b : Nat) (h : ReadyTcp tcp en) :
+    (servesPlain (connDecision tcp en ins pf b) = true ↔ (ins = true ∧ pf = false ∧ b ≠ 0x16)) ∧
+    specConn tcp true en ins pf b (connDecision tcp en ins pf b) = true := by
+  obtain ⟨ht, he⟩ := h
+  subst ht; subst he
+  cases ins <;> cases pf <;> by_cases hb : b = 22 <;> simp [connDecision, servesPlain, specConn, specPlain, hb]
+
+/-- what `Conn` does outside `ReadyTcp` (the code, described completely): the connection is returned untouched. -/
+theorem passthrough_outside_ready_tcp (tcp en ins pf : Bool) (b : Nat) (h : ¬ ReadyTcp tcp en) :
     connDecision tcp en ins pf b = ConnResult.raw := by
+  unfold ReadyTcp at h
   cases tcp <;> cases en <;> simp_all [connDecision]
+
+/-- the exception, machine-checked (1): a listener with TLS contexts whose contexts are all pending serves plaintext on a
+TCP connection although inspector mode is off (finding `insp … pending`). -/
+theorem plaintext_exception_pending :
+    ∃ tcp en ins pf b, ¬ ReadyTcp tcp en ∧ tcp = true ∧ ins = false ∧ servesPlain (connDecision tcp en ins pf b) = true ∧
+      specConn tcp true en ins pf b (connDecision tcp en ins pf b) = false :=
+  ⟨true, false, false, false, 0x47, by decide, rfl, rfl, by decide, by decide⟩
+
+/-- the exception, machine-checked (2): on a transport that is not TCP plaintext is served with a ready context and
+inspector mode off (finding `insp … nontcp`). -/
+theorem plaintext_exception_not_tcp :
+    ∃ tcp en ins pf b, ¬ ReadyTcp tcp en ∧ en = true ∧ ins = false ∧ servesPlain (connDecision tcp en ins pf b) = true ∧
+      specConn tcp true en ins pf b (connDecision tcp en ins pf b) = false :=
+  ⟨false, true, false, false, 0x47, by decide, rfl, rfl, by decide, by decide⟩
+
+/-- **upstream_tls_unless_pending**: the upstream side of the same clause: with a ready provider the upstream connection is
+never left in plaintext and succeeds exactly per the statement's table; the exception (provider pending: plaintext,
+finding `trustc pending`) is machine-checked in `upstream_exception_pending`. -/
+theorem upstream_tls_unless_pending (hook ins sn : Bool) (s : ServerCert) (hok : Bool) :
+    clientConn true hook ins sn s hok ≠ ClientResult.notls ∧
+    specClientConn hook ins sn s hok (clientConn true hook ins sn s hok) = true := by
+  cases hook <;> cases ins <;> cases sn <;> cases s <;> cases hok <;> decide
+
+theorem upstream_exception_pending :
+    ∃ hook ins sn s hok, clientConn false hook ins sn s hok = ClientResult.notls ∧
+      specClientConn hook ins sn s hok (clientConn false hook ins sn s hok) = false :=
+  ⟨false, false, true, .selfSigned, false, by decide, by decide⟩
 
 def exA : Ctx := ⟨true, "a.com".toList, ["*.a.com".toList], "h2".toList, []⟩
 def exB : Ctx := ⟨true, [], ["b.org".toList], "http/1.1,h2".toList, "b.org".toList⟩
@@ -414,21 +566,38 @@ end Trust
 /-! ### non-vacuity and the machine-checked witnesses of the shared-namespace discrepancy -/
 
 
--- the hypotheses of `select_statement_partial` are satisfiable by a non-trivial case (wildcard match on the 2nd rule)
-example : (∀ c ∈ [exN, exB, exA], [] ∉ c.sans) ∧
-    (∀ c ∈ [exN, exB, exA], c.ready = true → normSni "x.y.A.com.".toList ∉ c.alpn.map lower) ∧
-    (∀ c ∈ [exN, exB, exA], c.ready = true → ∀ q ∈ ["h2".toList], lower q ∉ c.names.map lower) := by decide
+-- the hypothesis of `select_statement` is satisfiable by a non-trivial case (wildcard match on the 2nd rule, a context
+-- with an EMPTY SAN in the list)
+def exE : Ctx := ⟨true, [], [[], "e.org".toList], [], []⟩
+example : NamespacesApart [exN, exE, exB, exA] "x.y.A.com.".toList ["h2".toList] := by decide
+example : Gen.TlsMatch.getConfigForClient (provs [exN, exE, exB, exA] 0) "x.y.A.com.".toList ["h2".toList] 0 = .config (some 3) := by decide
 example : select [exN, exB, exA] "x.y.A.com.".toList ["h2".toList] = .config (some 2) := by decide
 example : select [exN, exB, exA] "c.net".toList ["h2".toList] = .config (some 1) := by decide   -- ALPN rule
 example : select [exN, exB, exA] "c.net".toList [] = .config (some 1) := by decide              -- default skips the non-ready
 example : select [exN] "n.io".toList [] = .errNoCert := by decide
--- an SNI-less ClientHello falls to the ALPN rule / default (after the fix of the empty server_name key)
+-- an SNI-less ClientHello falls to the ALPN rule / default (after the fixes of the empty server_name / empty SAN keys)
 example : select [exA, exB] [] ["http/1.1".toList] = .config (some 1) := by decide
--- NEGATION WITNESS 1 (h1 dropped): SNI `h2` selects the context offering ALPN h2 although no name matches and the
+example : select [exE, exA, exB] [] ["http/1.1".toList] = .config (some 2) := by decide
+example : buildMatch exE = ["e.org".toList] := by decide
+-- the regenerated buildMatch: which strings enter `matches` (lower-cased; unsupported ALPN tokens and empty names never)
+example : Gen.TlsMatch.buildMatch [some ⟨"Cn.X".toList, ["A.b".toList, [], "*.C".toList]⟩, none] (Gen.TlsMatch.alpnFilter "H2,bogus,,sofa".toList) "Sn".toList =
+    ["cn.x", "a.b", "*.c", "h2", "sofa", "sn"].map String.toList := by decide
+-- wildcard_labels instances: one OR MORE labels, empty labels count, never the bare suffix, never a partial label
+example : Gen.TlsMatch.matchedServerName ["*.a.com".toList] "x.a.com".toList 0 = true ∧
+    Gen.TlsMatch.matchedServerName ["*.a.com".toList] "y.x.A.COM..".toList 0 = true ∧
+    Gen.TlsMatch.matchedServerName ["*.a.com".toList] ".a.com".toList 0 = true ∧
+    Gen.TlsMatch.matchedServerName ["*.a.com".toList] "*.a.com".toList 0 = true ∧
+    Gen.TlsMatch.matchedServerName ["*.a.com".toList] "a.com".toList 0 = false ∧
+    Gen.TlsMatch.matchedServerName ["*.a.com".toList] "xa.com".toList 0 = false ∧
+    Gen.TlsMatch.matchedServerName ["*.a.com".toList] "x.a.com.b".toList 0 = false := by decide
+example : normSni "y.x.A.COM..".toList = joinDot (["y".toList, "x".toList] ++ ["a.com".toList]) := by decide
+example : normSni "xa.com".toList = "x".toList ++ "a.com".toList ∧ ¬ ∃ p, "x".toList = p ++ ['.'] := by
+  refine ⟨by decide, ?_⟩; rintro ⟨p, hp⟩; cases p <;> simp at hp
+-- NEGATION WITNESS 1 (SNI = ALPN token): SNI `h2` selects the context offering ALPN h2 although no name matches and the
 -- client offers no ALPN: the statement selects the first ready context
 example : select [exB, exA] "h2".toList [] = .config (some 0) ∧ specSelect [⟨true, "c.net".toList, [], [], []⟩, exA] "h2".toList [] = some 0 ∧
     select [⟨true, "c.net".toList, [], [], []⟩, exA] "h2".toList [] = .config (some 1) := by decide
--- NEGATION WITNESS 2 (h2 dropped): a client ALPN entry `a.com` "intersects" the context named a.com
+-- NEGATION WITNESS 2 (client ALPN entry = name): a client ALPN entry `a.com` "intersects" the context named a.com
 example : specSelect [⟨true, "c.net".toList, [], [], []⟩, exA] "zzz".toList ["a.com".toList] = some 0 ∧
     select [⟨true, "c.net".toList, [], [], []⟩, exA] "zzz".toList ["a.com".toList] = .config (some 1) := by decide
 example : ∃ ps sni protos, select ps sni protos ≠ ofOpt (specSelect ps sni protos) :=
@@ -623,6 +792,126 @@ example :
     specListenerObs (specCtx ⟨false, false, []⟩ none ops) sdsCN .none = some (some 1, false) ∧
     ((ops ++ [SOp.pushEmpty]).foldl stepTemplateOnly (create (⟨false, false, []⟩ : LPol) none true)).ctx = some ((⟨true, true, []⟩ : LPol), 1) := by decide
 end SdsUpdate
+/-! ## sds contexts that share secret names (pkg/mtls/tls_context_manager.go, secret_manager.go; `Gen/TlsShare.lean`)
+
+The provider cache is keyed by (validation secret name, certificate secret name, index); `Gen.TlsShare.serverIndex` is the
+index `NewTLSServerContextManager` gives the context at a position of a listener (regenerated), `cacheKey` the regenerated
+key. -/
+section SharedSecrets
+open MosnVerif.Model.TlsShare MosnVerif.Lemmas.TlsShare MosnVerif.Gen.TlsShare
+
+/-- **provider_index_injective**: the regenerated provider index determines listener name AND position: no two contexts of
+one listener, and no two listeners, share a provider index; a cluster's index is never a listener's. -/
+theorem provider_index_injective (name name' : Name) (n n' : Nat) :
+    (serverIndex name n = serverIndex name' n' → name = name' ∧ n = n') ∧
+    (∀ c, clientIndex c ≠ serverIndex name n) ∧ (∀ c c', clientIndex c = clientIndex c' → c = c') :=
+  ⟨serverIndex_injective name name' n n', fun c => clientIndex_ne_serverIndex c name n, clientIndex_injective⟩
+
+/-- **update_policy_current_shared** (`update_policy_current` / `sds_context_follows_latest_config` for contexts that share
+secret names): after ANY history of listener builds (any listeners, any context lists, contexts naming the same or
+different certificate / validation secrets in any pattern, static contexts in between), cluster builds and secret
+deliveries, the tls context in force at EVERY position of the latest build of a listener is built from THAT position's
+own configuration and the latest complete secret of the names it uses — never from another context's configuration. -/
+theorem update_policy_current_shared {κ : Type} (ops : List (COp κ)) (name : Name) (cs : List (Option (SCtx κ)))
+    (h : lastBuild ops name = some cs) (i : Nat) (c : SCtx κ) (hc : cs[i]? = some (some c)) :
+    ctxAt (run ops) name i c.ref = specCtxAt (run ops) c := by
+  obtain ⟨h1, h2⟩ := foldl_inv ops _ _ (empty_inv (κ := κ))
+  obtain ⟨p, hp, hcfg⟩ := h2 name cs h i c hc
+  obtain ⟨hco, hsec, _⟩ := h1 _ p hp
+  unfold ctxAt specCtxAt
+  show (((run ops).provs (serverKey name i c.ref)).bind (·.ctx)) = _
+  unfold run
+  rw [hp]
+  simp only [Option.bind_some]
+  rw [hco, hsec, hcfg, pemOf_serverKey]
+
+/-- the contexts the live manager selects among ARE the configured ones, each with its own configuration. -/
+theorem manager_view_is_configured (names : Name → Nat → Name × List Name) (statics : Nat → Ctx) (ops : List (COp LCfg))
+    (name : Name) (cs : List (Option (SCtx LCfg))) (h : lastBuild ops name = some cs) :
+    managerView names statics (run ops) name cs = specView names statics (run ops) cs := by
+  unfold managerView specView
+  apply viewFrom_congr
+  intro i c hc
+  simp only [Nat.zero_add]
+  rw [update_policy_current_shared ops name cs h i c hc]
+
+/-- **select_statement_shared**: `select_statement` for a listener whose sds contexts share secret names in any pattern:
+the regenerated `GetConfigForClient`, run on the providers the live manager holds, selects by the statement's rule among
+the CONFIGURED contexts (own server_name / alpn, the certificate names of the latest secret; not ready while the secret
+is incomplete), under `NamespacesApart`. -/
+theorem select_statement_shared (names : Name → Nat → Name × List Name) (statics : Nat → Ctx) (ops : List (COp LCfg))
+    (name : Name) (cs : List (Option (SCtx LCfg))) (h : lastBuild ops name = some cs)
+    (sni : Name) (protos : List Name) (fuel : Nat)
+    (hns : NamespacesApart (specView names statics (run ops) cs) sni protos) :
+    Gen.TlsMatch.getConfigForClient (provs (managerView names statics (run ops) name cs) 0) sni protos fuel =
+      ofOpt (specSelect (specView names statics (run ops) cs) sni protos) := by
+  rw [manager_view_is_configured names statics ops name cs h]
+  exact select_statement _ sni protos fuel hns
+
+/-- **client_auth_table_shared**: `client_auth_table` for such a listener: the ClientAuthType in force at every position is
+the statement's table on THAT position's verify_client / require_client_cert (once its secret is complete). -/
+theorem client_auth_table_shared (ops : List (COp LCfg)) (name : Name) (cs : List (Option (SCtx LCfg)))
+    (h : lastBuild ops name = some cs) (i : Nat) (c : SCtx LCfg) (hc : cs[i]? = some (some c)) :
+    authOf (ctxAt (run ops) name i c.ref) =
+      (pemSecret (run ops) (c.ref.val, c.ref.cert)).map (fun _ => specClientAuth c.cfg.require c.cfg.verify) := by
+  rw [update_policy_current_shared ops name cs h i c hc]
+  unfold specCtxAt
+  cases pemSecret (run ops) (c.ref.val, c.ref.cert) with
+  | none => rfl
+  | some s => simp [authOf, client_auth_table]
+
+/-- **client_auth_table_every_kind**: `client_auth_table` / `require_and_verify_iff` for EVERY kind of context — static with
+ca_cert, static without (host root store), sds with a validation secret, sds WITHOUT a validation secret (host root store)
+— ready or pending: a built context's ClientAuthType is the statement's table on ITS verify_client / require_client_cert
+and nothing else (RequireAndVerifyClientCert iff both are set; a pending context has none and is never selected).
+Regenerated: the fields GetClientAuth reads are exactly the two flags, and every context's tls.Config.ClientAuth is set,
+unconditionally, from GetClientAuth of its own configuration. -/
+theorem client_auth_table_every_kind (k : CtxKind) (req ver : Bool) :
+    getClientAuthReads = ["RequireClientCert", "VerifyClient"] ∧ clientAuthFromHookForEveryContext = true ∧
+    ctxClientAuth k true req ver = some (specClientAuth req ver) ∧
+    (ctxClientAuth k true req ver = some RequireAndVerifyClientCert ↔ (req = true ∧ ver = true)) ∧
+    ctxClientAuth k false req ver = none := by
+  refine ⟨by decide, by decide, ?_, ?_, rfl⟩
+  · simp [ctxClientAuth, client_auth_table]
+  · simp only [ctxClientAuth, ↓reduceIte, Option.some.injEq]
+    exact require_and_verify_iff req ver
+
+/-- **server_trust_every_kind**: hence the server-side handshake result of every kind of context is the statement's trust
+table on its flags and the peer's class relative to ITS trust anchor (the configured CA, or the host's root store for a
+context without ca_cert / validation secret — `unconfigured_uses_host_store`): with verify_client and require_client_cert
+only a peer proving possession of a certificate of that anchor gets through, whatever the kind. -/
+theorem server_trust_every_kind (k : CtxKind) (req ver : Bool) (p : Peer) :
+    (ctxClientAuth k true req ver).map (fun a => serverAccepts a p) = some (specServerAccepts req ver p) ∧
+    ((ctxClientAuth k true true true).map (fun a => serverAccepts a p) = some true ↔ p = Peer.rightCA) := by
+  refine ⟨by simp [ctxClientAuth, server_trust_table], ?_⟩
+  simp only [ctxClientAuth, ↓reduceIte, Option.map_some, Option.some.injEq]
+  exact mutual_tls p
+
+example : CtxKind.all.map (fun k => ctxClientAuth k true true true) = [some 4, some 4, some 4, some 4] ∧
+    ctxClientAuth .sdsWithoutValidation true false true = some 3 ∧ ctxClientAuth .sdsWithoutValidation false true true = none := by decide
+-- NEGATION WITNESS (the seeded class): verify_client read as false for an sds context without validation secret turns
+-- verify+require into RequestClientCert and lets a peer without trusted certificate through
+example : getClientAuth true false = RequestClientCert ∧ serverAccepts (getClientAuth true false) .selfSigned = true ∧
+    specServerAccepts true true .selfSigned = false ∧ serverAccepts (getClientAuth false false) .none = true ∧
+    specServerAccepts false true .otherCA = false := by decide
+
+def shA : SCtx LCfg := ⟨⟨true, true, "a.com".toList, []⟩, ⟨"rootca".toList, "default".toList⟩⟩
+def shB : SCtx LCfg := ⟨⟨false, false, "b.org".toList, "h2".toList⟩, ⟨"rootca".toList, "default".toList⟩⟩
+def shNames : Name → Nat → Name × List Name := fun c _ => (c, [c])
+def shOps : List (COp LCfg) := [.build "l".toList [some shA, none, some shB] true, .complete ("rootca".toList, "default".toList) 1,
+  .build "m".toList [some shB] true, .complete ("rootca".toList, "default".toList) 2]
+-- two contexts of ONE listener naming the same secrets keep their own policies; a later listener and a rotation do not disturb them
+example : lastBuild shOps "l".toList = some [some shA, none, some shB] := by decide
+example : ctxAt (run shOps) "l".toList 0 shA.ref = some (shA.cfg, 2) ∧ ctxAt (run shOps) "l".toList 2 shB.ref = some (shB.cfg, 2) := by decide
+example : authOf (ctxAt (run shOps) "l".toList 0 shA.ref) = some 4 ∧ authOf (ctxAt (run shOps) "l".toList 2 shB.ref) = some 0 := by decide
+example : serverIndex "l".toList 12 = "server_12_l".toList ∧ clientIndex "c".toList = "client_c".toList := by decide
+-- NEGATION WITNESS (the repaired defect: every context of a listener had the index server_<listener>): two contexts behind
+-- ONE cache key — the configuration of the last one is the configuration of both
+example : ((addOrUpdate (addOrUpdate (Cache.empty : Cache LCfg) (cacheKey shA.ref.val shA.ref.cert "server_l".toList) shA.cfg true)
+    (cacheKey shB.ref.val shB.ref.cert "server_l".toList) shB.cfg true).provs (cacheKey shA.ref.val shA.ref.cert "server_l".toList)).map (·.config) =
+    some shB.cfg := by decide
+end SharedSecrets
+
 /-! ## the accept path with use_original_dst (pkg/server/handler.go, originaldst listener filter; `Gen/TlsAccept.lean`) -/
 section AcceptPath
 open MosnVerif.Model.TlsAccept MosnVerif.Lemmas.TlsAccept MosnVerif.Gen.TlsAccept MosnVerif.Gen.TlsConnect
